@@ -63,7 +63,7 @@ func optString(o evt.SubOpts) string {
 	return strings.Join(p, "+")
 }
 
-var scriptNames = []string{"", "unsubSelf", "unsubNext", "subNew", "clearOwn", "clearAll", "pubColliding", "pubOwn", "clearOwnAndResubscribe", "clearAllAndResubscribe"}
+var scriptNames = []string{"", "unsubSelf", "unsubNext", "subNew", "clearOwn", "clearAll", "pubColliding", "pubOwn", "clearOwnAndResubscribe", "clearAllAndResubscribe", "pubCollidingEmptyThenSubscribeTwoAndPublish", "clearOwnPubEmptyThenSubscribeTwoAndPublish"}
 
 func (o Op) String() string {
 	switch o.K {
@@ -164,7 +164,7 @@ func (m *Model) Enabled(o Op) bool {
 				if r.o.Sequential && !r.o.Async {
 					seq = true
 				}
-				if sc := c.script[ty][r.slot]; sc == 6 || sc == 7 {
+				if sc := c.script[ty][r.slot]; sc == 6 || sc == 7 || sc == 10 || sc == 11 {
 					pubScript = true
 				}
 			}
@@ -301,6 +301,18 @@ func scriptOps(sc, ty, slot, id int, ctx bool) []Op {
 		return []Op{{K: KClear, Ty: ty}, {K: KSub, Ty: ty, Slot: 3}}
 	case 9:
 		return []Op{{K: KClearAll}, {K: KSub, Ty: ty, Slot: 3}}
+	case 10:
+		// a publish that (usually) reaches nobody, two subscriptions and a publish that
+		// reaches them - all on the type that shares the routing shard, from inside a
+		// handler of a publish that still has handlers to go
+		other := ty ^ 1
+		if ty == 2 {
+			other = 0
+		}
+		return []Op{{K: KPub, Ty: other, Val: id + 10}, {K: KSub, Ty: other, Slot: 3}, {K: KSub, Ty: other, Slot: 2}, {K: KPub, Ty: other, Val: id + 20}}
+	case 11:
+		// the same on the handler's own type, after clearing it
+		return []Op{{K: KClear, Ty: ty}, {K: KPub, Ty: ty, Val: id + 2}, {K: KSub, Ty: ty, Slot: 3}, {K: KSub, Ty: ty, Slot: 2}, {K: KPub, Ty: ty, Val: id + 4}}
 	}
 	return nil
 }
@@ -372,7 +384,7 @@ func alphaCollisions() []Op {
 
 func alphaReentrant() []Op {
 	var l []Op
-	for sc := 1; sc <= 9; sc++ {
+	for sc := 1; sc <= 11; sc++ {
 		l = append(l, subS(0, 0, evt.SubOpts{}, sc))
 	}
 	for _, sc := range []int{1, 3, 4, 7} {
